@@ -1,6 +1,6 @@
 ------------------------------ MODULE LifecycleGen ------------------------------
 (* Behaviours of Lifecycle.tla projected to the actions the harness controls       *)
-(* (accept, send, reply, vanish, shutdown, ctx_expire, close); used with            *)
+(* (accept, send, reply, finish, vanish, shutdown, ctx_expire, close); used with            *)
 (* `tlc -simulate`: every state prints the projected history, the orchestrator      *)
 (* keeps the maximal ones and the harness replays them against martian.Proxy.       *)
 EXTENDS Lifecycle, Json
@@ -13,11 +13,12 @@ GInit == Init /\ hist = <<>>
 Ctl == \/ \E c \in Conns : \/ (Accept(c) \/ AcceptLate(c)) /\ hist' = Append(hist, A("accept", c))
                            \/ ClientSend(c) /\ hist' = Append(hist, A("send", c))
                            \/ OriginReply(c) /\ hist' = Append(hist, A("reply", c))
+                           \/ OriginFinish(c) /\ hist' = Append(hist, A("finish", c))
                            \/ c \in Vanishers /\ ClientVanish(c) /\ hist' = Append(hist, A("vanish", c))
        \* shutdown is requested while something is going on
-       \/ (\E c \in Conns : nreq[c] >= 1 /\ pc[c] \in {"wait", "read", "rt"}) /\ SdCall /\ hist' = Append(hist, A("shutdown", "-"))
+       \/ (\E c \in Conns : nreq[c] >= 1 /\ pc[c] \in {"wait", "read", "rt", "wbody"}) /\ SdCall /\ hist' = Append(hist, A("shutdown", "-"))
        \* the context only expires once in-flight work is over and an idle client keeps Shutdown waiting
-       \/ (\A c \in Conns : pc[c] \notin {"rt", "wait", "write", "chk2"}) /\ (\E c \in Conns : pc[c] = "read" /\ inbox[c] = 0)
+       \/ (\A c \in Conns : pc[c] \notin {"rt", "wait", "whead", "wbody", "wend", "chk3", "chk2"}) /\ (\E c \in Conns : pc[c] = "read" /\ inbox[c] = 0)
             /\ CtxExpire /\ hist' = Append(hist, A("ctx_expire", "-"))
        \/ sd \in {"nil", "err"} /\ ClCall /\ hist' = Append(hist, A("close", "-"))
 Internal == UNCHANGED hist /\ (\/ \E c \in Conns : HNext(c)
